@@ -1,14 +1,17 @@
-\* the design AS REPAIRED (notes/fixes/C15-*.patch): the property holds without carve-outs (thorough scope)
+\* the design AS REPAIRED (notes/fixes/C15-foreign-guard.patch + C02-len-constraint-errors.patch): the property holds without carve-outs (thorough scope)
 SPECIFICATION Spec
 CONSTANTS
   Scenarios <- ScenariosDef
   MaxLen = 6
   MaxC = 2
   MaxAtoms = 2
+  GuardSet = {"none", "isnone", "other"}
+  Narrow = FALSE
   Shapes = {"one", "chain", "prim"}
   ForeignGuardMisread = FALSE
   StrictPositiveMin = FALSE
   RaiseOnConflict = FALSE
+  NegativeMaxIsError = TRUE
 INVARIANT TypeOK
 INVARIANT Exact
 INVARIANT UnsatIsError
